@@ -157,7 +157,9 @@ class SeqWorld(object):
             involved = (k, j)
         ev["from"], ev["to"] = sid, newsid
         # every other array - the operands of earlier merges included - must be exactly what it was
-        ev["others"] = [[o, X.proj_array(arrs[o - 1])] for o in range(1, len(arrs) + 1) if o not in involved]
+        # (arrays that never held a tree and are still unused have nothing that could change)
+        ev["others"] = [[o, X.proj_array(arrs[o - 1])] for o in range(1, len(arrs) + 1)
+                        if o not in involved and (o not in self.alive or len(arrs[o - 1]._tree_split_bitmasks) > 0)]
         evs = [ev]
         if query and len(arrs[k - 1]._tree_split_bitmasks) > 0 and (op[0] != "AddTree" or k in self.q):
             evs.append(seq_query(arrs, k, newsid))       # after any merge; after an addition to an array that was queried before
